@@ -7,9 +7,11 @@ import (
 	"encoding/hex"
 	"encoding/json"
 	"fmt"
+	"io"
 	"os"
 	"reflect"
 	"runtime"
+	"strconv"
 	"sync"
 	"sync/atomic"
 	"testing"
@@ -552,6 +554,23 @@ func (p *ptrLogger) Print(...interface{})          { p.n++ }
 func (p *ptrLogger) Printf(string, ...interface{}) { p.n++ }
 func (p *ptrLogger) Println(...interface{})        { p.n++ }
 
+// fourGiB streams a 4 GiB activity file whose header declares declared data
+// bytes while declared+1 are present (the last record, two bytes long, ends
+// one byte after the declared end; the checksum and 64 more bytes follow).
+// Decode has to return normally.
+func fourGiB(declared uint32) string {
+	extra := bytes.Repeat([]byte{0x40, 0x00}, 32)
+	g := gen.NewBigFile(uint64(declared)+1, declared, extra)
+	r := gen.DecodeBig(g, func(rd io.Reader) ([]byte, error) {
+		_, err := fit.Decode(rd)
+		return nil, err
+	})
+	if r.Panic != nil {
+		return fmt.Sprintf("Decode panicked on a %d-byte stream whose header declares %d data bytes and whose last record ends one byte after that (checksum and 64 more bytes follow): %v", r.Total, declared, r.Panic)
+	}
+	return ""
+}
+
 func TestC01(t *testing.T) {
 	hx.Main(t, "C01", func(rec *hx.Recorder) {
 		startWatchdog(rec)
@@ -559,6 +578,14 @@ func TestC01(t *testing.T) {
 			rec.Eval("replay", 1)
 			if rp.Sub == "grid" {
 				replayGrid(rec, rp.Case)
+				return
+			}
+			if rp.Sub == "four-gib" {
+				for _, d := range []uint32{0xFFFFFFFE, 0xFFFFF001} {
+					if msg := fourGiB(d); msg != "" {
+						rec.Fail(rp.Sub, "", msg, byteCase{Note: msg})
+					}
+				}
 				return
 			}
 			if rp.Sub == "std-logger" {
@@ -573,6 +600,32 @@ func TestC01(t *testing.T) {
 			}
 			return
 		}
+
+		// streams that really are 4 GiB long whose header declares a data
+		// size just short of what follows (the last record straddles the
+		// declared end, more bytes follow): decoded while the rest of this
+		// process's work goes on (first shard, 64-bit builds; streamed)
+		var big []chan string
+		if hx.FirstShard() && strconv.IntSize == 64 && os.Getenv("VERIF_VARIANT") == "" {
+			decl := []uint32{0xFFFFFFFE}
+			if hx.Thorough() {
+				decl = append(decl, 0xFFFFF001, 0xFFFFFFFF, 0xFFFFF800)
+			}
+			for _, d := range decl {
+				ch := make(chan string, 1)
+				big = append(big, ch)
+				go func(d uint32) { ch <- fourGiB(d) }(d)
+			}
+		}
+		defer func() {
+			for _, ch := range big {
+				rec.Eval("four-gib", 1)
+				rec.NonTrivialEnum(1)
+				if msg := <-ch; msg != "" {
+					rec.Fail("four-gib", "", msg, byteCase{Data: "", Note: msg})
+				}
+			}
+		}()
 
 		if hx.FirstShard() {
 			grid(t, rec) // enumerations run once, the rapid search in every shard
